@@ -148,8 +148,9 @@ Step ==
             /\ st' = [st EXCEPT ![c] = IF st[c] = "keeping" THEN "idle" ELSE st[c]]
             /\ dll' = [dll EXCEPT ![c] = IF st[c] = "keeping" THEN e.now + C.ka ELSE dll[c]]
             /\ Same(<<pend, left, dl, wait, exp, late, acc, cls, stopping, termed>>)
-       [] e.e = "cancel" ->
-            /\ busy' = busy - 1 /\ verdict' = "ok"
+       [] e.e = "cancel" ->         \* x = "shutdown": the worker itself cancelled the queued request when it shut its pool down
+                                    \* (a fault injected by the environment has x = "")
+            /\ busy' = busy - 1 /\ verdict' = IF e.x = "shutdown" THEN "QueuedRequestDroppedAtStop" ELSE "ok"
             /\ st' = [st EXCEPT ![c] = IF st[c] = "handled" THEN "closing" ELSE st[c]]
             /\ Same(<<pend, left, dl, dll, wait, exp, late, acc, cls, stopping, termed>>)
        [] e.e = "close" ->
